@@ -56,6 +56,64 @@ def closure_of(fb, i, acc=None):
     return acc
 
 
+def stress_scenarios():
+    """Hand-made contention scenarios: many goroutines registering the same new packages, importing
+    the same dependency, and registering extension numbers in the same node."""
+    out = []
+    msgs = ["M", "N", "P", "Q", "b", "c"]
+    # S1: k files in one fresh deep package, one goroutine each
+    for pkg in ("a.b.c", "a", ""):
+        fs = [{"id": i, "pkg": pkg, "deps": [], "msgs": [{"name": msgs[i], "fields": [], "nested": []}], "enums": [], "exts": []}
+              for i in range(5)]
+        out.append(("same-new-package:" + (pkg or "root"), fs, [[i] for i in range(5)], False))
+    # S2: k files importing the same file and extending the same message with different tags
+    base = {"id": 0, "pkg": "a.b", "deps": [], "msgs": [{"name": "M", "fields": [], "nested": []}], "enums": [], "exts": []}
+    for samepkg in (True, False):
+        fs = [base] + [{"id": i, "pkg": ("x" if samepkg else ["x", "y", "d", "p", "q"][i - 1]), "deps": [0], "msgs": [], "enums": [],
+                        "exts": [{"name": ["e", "f", "g", "e1", "e2"][i - 1], "extendee": "a.b.M", "tag": 100 + i}]} for i in range(1, 6)]
+        out.append(("extensions-same-node:" + ("samepkg" if samepkg else "pkgs"), fs, [[i] for i in range(1, 6)], False))
+    # S3: the same with one tag used twice: every repetition must report it
+    fs = [base] + [{"id": i, "pkg": ["x", "y", "d", "p", "q"][i - 1], "deps": [0], "msgs": [], "enums": [],
+                    "exts": [{"name": "e", "extendee": "a.b.M", "tag": 100 + min(i, 4)}]} for i in range(1, 6)]
+    out.append(("extensions-one-duplicate", fs, [[i] for i in range(1, 6)], True))
+    # S4: two files with the same name in one new package
+    fs = [{"id": i, "pkg": "a.b", "deps": [], "msgs": [{"name": "M" if i < 2 else msgs[i], "fields": [], "nested": []}], "enums": [], "exts": []}
+          for i in range(4)]
+    out.append(("same-name-same-new-package", fs, [[i] for i in range(4)], True))
+    res = []
+    for name, fs, parts, collide in out:
+        for f in fs:
+            pkg = f["pkg"]
+            f["_names"] = [full(pkg, m["name"]) for m in f["msgs"]] + [full(pkg, x["name"]) for x in f["exts"]]
+            f["_msgs"] = [full(pkg, m["name"]) for m in f["msgs"]]
+        unames, uexts = universe_queries(fs)
+        uexts = [{"msg": x["msg"], "tag": t} for x in uexts[::3] for t in range(100, 107)]
+        res.append((name, collide, {"mode": "stress", "files": strip_private(fs), "unames": unames, "uexts": uexts,
+                                    "parts": [[{"op": "import", "f": i} for i in p] for p in parts], "spin": 1}))
+    return res
+
+
+def judge_stress(ctx, name, collide, inp, o, race=False):
+    if "builderr" in o:
+        raise RuntimeError("stress scenario rejected by protodesc: %s %s" % (name, o["builderr"]))
+    if "crash" in o or "panic" in o:
+        ctx.violation("panic", "implementation panicked or crashed in the contention scenario " + name, {"scenario": name, "input": inp, "observed": o})
+        return
+    ctx.count(("stress", name, race, inp["reps"]), True, "stress" + ("-race" if race else ""))
+    replay = {"scenario": name, "files": inp["files"], "parts": inp["parts"], "reps": inp["reps"], "observed": o}
+    if o["ref_err"] != collide:
+        ctx.corr_break("symbols:stress", replay, {"note": "sequential reference run: collision expected %s" % collide})
+    if collide and o["reps_with_error"] != o["reps"]:
+        ctx.violation("partition-collision-mismatch", "%d of %d concurrent repetitions report no collision although the files collide (%s)"
+                      % (o["reps"] - o["reps_with_error"], o["reps"], name), replay)
+    if not collide and o["reps_with_error"]:
+        ctx.violation("partition-collision-mismatch", "%d of %d concurrent repetitions report a collision although there is none (%s)"
+                      % (o["reps_with_error"], o["reps"], name), replay)
+    if not collide and o["reps_with_other_lookups"]:
+        ctx.violation("partition-final-table-mismatch", "%d of %d concurrent repetitions end with lookups that differ from the sequential import (%s)"
+                      % (o["reps_with_other_lookups"], o["reps"], name), replay)
+
+
 def results_of(out, mode):
     if mode == "seq":
         return [st["res"] for st in out["steps"]], out["steps"][-1]["look"]
@@ -187,10 +245,25 @@ def run(ctx):
                               dict(replay, together_look=oa["look"], parts_look=ob["look"]))
     ctx.extra["compile_cases_with_other_errors"] = nother
 
+    # contention scenarios, many repetitions each (plain build)
+    scen = stress_scenarios()
+    sins = [dict(inp, reps=ctx.budget(400, 20000)) for _, _, inp in scen]
+    souts = ctx.impl("symbols", sins, shards=min(len(sins), NCPU))
+    for (name, collide, _), inp, o in zip(scen, sins, souts):
+        judge_stress(ctx, name, collide, inp, o)
+
     # race detector shard: concurrent imports and lookups on one table
     rcases = [gen_part_case(rng, conc=True, spin=2) for _ in range(ctx.budget(24, 600))]
-    routs, reports = run_race(ctx, [c["split"] for c in rcases])
+    rsins = [dict(inp, reps=ctx.budget(6, 200)) for _, _, inp in scen]
+    routs, reports = run_race(ctx, [c["split"] for c in rcases] + rsins)
     nrace = 0
+    for (name, collide, _), inp, o, rep in zip(scen, rsins, routs[len(rcases):], reports[len(rcases):]):
+        judge_stress(ctx, name, collide, inp, o, race=True)
+        for block in split_reports(rep):
+            nrace += 1
+            key, frames = classify_race(block)
+            ctx.violation(key, "the race detector reports a data race between %s (contention scenario %s)" % (" and ".join(frames or ["?"]), name),
+                          {"scenario": name, "files": inp["files"], "parts": inp["parts"], "race_report": block.strip()[:6000]})
     for c, o, rep in zip(rcases, routs, reports):
         if "builderr" in o:
             continue
